@@ -613,6 +613,16 @@ def run_case(ctx, i, rng):
         ctx.count("siblings_differing_only_in_case", plant_case_twins(rng, n))
     if i % 3 == 0 or i % 4 == 2:
         ctx.count("instances_rewired_through_handles_then_repointed", handles_then_repoint(rng, n))
+    if i % 4 == 3:
+        # the empty string is a name like any other: one cell with contents is called ""
+        cands_ = [d_ for d_ in defs_of(n) if (d_.children or d_.cables) and d_.name and d_.library is not None and
+                  not any(x_.name == "" for x_ in d_.library.definitions)]
+        if cands_:
+            try:
+                rng.choice(cands_).name = ""
+                ctx.count("netlists_with_a_cell_named_by_the_empty_string")
+            except ValueError:
+                pass
     if i % 8 == 5:
         ctx.count("netlists_with_a_port_wider_than_256", plant_wide(rng, n))
     if i % 3 == 2:
